@@ -20,6 +20,54 @@ from lerax.space import Discrete  # noqa: E402
 from harness.stubs import TabPolicy, TabPState  # noqa: E402
 
 
+def on_policy_data(ck, quick):
+    """'On data collected by the current policy every ratio is 1 and the approximate KL is 0', end to end: the buffer a REAL
+    collect_rollout produces (stock MLPActorCriticPolicy; discrete, masked and bounded-Box actions with a wide Gaussian so that
+    proposals leave the bounds) is handed unchanged to the real loss functions with the unchanged policy."""
+    from lerax.callback import CallbackList
+    from lerax.policy import MLPActorCriticPolicy
+    from harness.stubs import TabEnv, build_stack, random_tab
+    cb = CallbackList(callbacks=[])
+    rng = ck.rng
+    for idx in range(6 if quick else 36):
+        kind = ["box", "masked", "box", "unmasked"][idx % 4]
+        spec = random_tab(rng, box_obs=False, box_action=(kind == "box"), mask=(kind == "masked"), trunc_rate=0.05, term_rate=0.15)
+        env = build_stack(TabEnv(spec), [["TimeLimit", 5]])
+        pol = MLPActorCriticPolicy(env=env, key=jr.key(7 * idx + ck.seed), feature_size=4, feature_width=8, feature_depth=1, value_width=8, value_depth=1,
+                                   action_width=8, action_depth=1, log_std_init=1.0)
+        N = 1 + idx % 2; T = 12
+        name = ["PPO", "A2C"][(idx // 2) % 2]
+        algo = PPO(num_envs=N, num_steps=T, num_epochs=1, num_batches=1) if name == "PPO" else A2C(num_envs=N, num_steps=T)
+        ck.current_case = {"algo": name, "policy": "MLPActorCriticPolicy", "kind": kind, "spec": spec, "N": N, "T": T}
+        st = algo.reset(env, pol, key=jr.key(100 + idx), callback=cb)
+        if N == 1:
+            _, buf = eqx.filter_jit(lambda s, k: algo.collect_rollout(env, pol, s, cb, k))(st.step_state, jr.key(200 + idx))
+        else:
+            _, buf = eqx.filter_jit(lambda s, k: eqx.filter_vmap(algo.collect_rollout, in_axes=(None, None, eqx.if_array(0), None, 0))(env, pol, s, cb, jr.split(k, N)))(st.step_state, jr.key(200 + idx))
+            buf = buf.flatten_axes((0, 1))
+        advs = np.asarray(buf.advantages, dtype=np.float64)
+        oob = 0
+        if kind == "box":
+            lo, hi = np.asarray(env.action_space.low), np.asarray(env.action_space.high)
+            a = np.asarray(buf.actions)
+            oob = int(np.sum((a < lo) | (a > hi)))
+        if name == "PPO":
+            loss, stt = PPO.ppo_loss(pol, buf, False, 0.2, False, 0.5, 0.0)
+            kl, pl, expect = float(stt.approx_kl), float(stt.policy_loss), float(-np.mean(advs))
+        else:
+            loss, stt = A2C.a2c_loss(pol, buf, False, 0.5, 0.0)
+            kl, pl, expect = 0.0, float(stt.policy_loss), float(-np.mean(np.asarray(buf.log_probs, dtype=np.float64) * advs))
+        ck.case_seen(("on-policy-data", name, kind, idx) if (kind != "box" or oob) else None); ck.count("on_policy_data:" + name + ":" + kind)
+        ck.count("on_policy_data_proposals_outside_bounds", oob)
+        scale = max(1.0, abs(expect))
+        if not (abs(kl) <= 1e-9 and abs(pl - expect) <= 1e-9 * scale):
+            ck.violations.append(Violation("impl-violates-property", f"C08/{name}/on-policy-data-{kind}",
+                                           "on the data just collected by the unchanged policy the loss is not the objective at ratio 1 (approx KL != 0, or the policy loss is not "
+                                           "-mean(advantage) [PPO] / -mean(stored log-prob * advantage) [A2C])",
+                                           case={**ck.current_case, "approx_kl": kl, "policy_loss": pl, "expected_policy_loss": expect, "stored_actions_outside_bounds": oob}))
+    ck.current_case = None
+
+
 def body(ck):
     ck.rule = ("buffers of 1..12 samples with dyadic advantages/returns/values/stored log-probs; new log-probs chosen so that ratios lie inside, above and below the clip interval with both advantage signs; "
                "all flag combinations (normalize_advantages, clip_value_loss) and dyadic coefficients; non-trivial = at least one sample outside the clip interval (PPO) / n >= 2 (A2C, REINFORCE)")
@@ -91,6 +139,7 @@ def body(ck):
     res = ck.run_coq_cases("C08Check", cases, shard=100, preamble="From Lerax Require Import Losses.\nImport C08Check.")
     ck.classify(res, cj, sig_of=lambda i: "C08/" + cj[i]["algo"], relation="Losses (ppo.py:143-210, a2c.py:124-152, reinforce.py:113-137) vs static loss functions",
                 what="loss / statistics differ from the published objective")
+    on_policy_data(ck, quick)
     # optimiser chain: gradient updates are applied through global-norm clipping FOLLOWED BY the configured optimiser.
     # Two consecutive updates (carrying the optimiser state) are compared with a reference chain built from optax directly:
     # clipping after Adam, or no clipping, changes Adam's moments and hence the second update.
